@@ -72,6 +72,35 @@ impl Obs {
 struct St {
     m: ClusterManager,
     hist_len: usize,
+    /// the membership the acknowledged requests describe: id -> voter flag of the LAST add_node
+    /// answered Ok, minus the ids removed since (reference model; the health oracle counts voters
+    /// in the implementation's configuration, which must therefore be this one)
+    refm: BTreeMap<u64, bool>,
+}
+fn ref_apply(refm: &mut BTreeMap<u64, bool>, op: &Op) {
+    match op {
+        Op::AddVoter(i) => {
+            refm.insert(*i, true);
+        }
+        Op::AddLearner(i) => {
+            refm.insert(*i, false);
+        }
+        Op::Remove(i) => {
+            refm.remove(i);
+        }
+        _ => {}
+    }
+}
+/// The configuration must list exactly the acknowledged membership (an id listed twice is judged
+/// by the health oracle, not here).
+fn judge_config(o: &Obs, refm: &BTreeMap<u64, bool>) -> Option<(String, String)> {
+    let mut listed: Vec<(u64, bool)> = o.nodes.clone();
+    listed.dedup();
+    let want: Vec<(u64, bool)> = refm.iter().map(|(k, v)| (*k, *v)).collect();
+    if listed != want && !o.has_dup() {
+        return Some(("membership:configuration-differs-from-acknowledged-requests".to_string(), format!("configuration lists {listed:?} (id, voter) but the acknowledged add_node / remove_node requests give {want:?}: health counts voters the operator did not configure")));
+    }
+    None
 }
 
 struct M {
@@ -164,7 +193,7 @@ impl Model for M {
     type State = St;
     type Key = Obs;
     fn init(&self) -> St {
-        St { m: empty_manager(), hist_len: 0 }
+        St { m: empty_manager(), hist_len: 0, refm: BTreeMap::new() }
     }
     fn ops(&self, _st: &St) -> Vec<Op> {
         let mut v = vec![];
@@ -197,12 +226,18 @@ impl Model for M {
                 "panic".into()
             }
         };
+        if outcome == "ok" {
+            ref_apply(&mut st.refm, op);
+        }
         if !check {
             return Step { violations: vio, outcome };
         }
         match guarded(|| (observe(m, self.k), block(m.health_status()))) {
             Ok((o, h)) => {
                 if let Some(v) = judge(&o, h.healthy) {
+                    vio.push(v);
+                }
+                if let Some(v) = judge_config(&o, &st.refm) {
                     vio.push(v);
                 }
                 Step { violations: vio, outcome: format!("{outcome}/healthy={}", h.healthy) }
@@ -325,10 +360,17 @@ fn main() {
                     let mut h2 = h.clone();
                     h2.push(op.clone());
                     let mg = empty_manager();
+                    let mut refm = BTreeMap::new();
                     for o in &h2 {
-                        let _ = guarded(|| run_op(&mg, o));
+                        if matches!(guarded(|| run_op(&mg, o)), Ok(Ok(()))) {
+                            ref_apply(&mut refm, o);
+                        }
                     }
-                    let nodes = observe(&mg, k).nodes;
+                    let obs = observe(&mg, k);
+                    if let Some((sig, msg)) = judge_config(&obs, &refm) {
+                        ctx.violation(&sig, msg, json!({"kind": "membership-history", "history": h2.iter().map(|o| format!("{:?}", o)).collect::<Vec<_>>()}));
+                    }
+                    let nodes = obs.nodes;
                     if !configs.contains_key(&nodes) {
                         configs.insert(nodes, h2.clone());
                         next.push(h2);
@@ -431,7 +473,7 @@ fn replay(ctx: &svmc::Ctx, m: &M, p: &std::path::Path) {
         let _ = run_op(&mg, &Op::RoleLeader(w["leader"].as_u64().unwrap()));
     } else {
         mg = empty_manager();
-        let all = m.ops(&St { m: empty_manager(), hist_len: 0 });
+        let all = m.ops(&St { m: empty_manager(), hist_len: 0, refm: BTreeMap::new() });
         for (i, want) in w["history"].as_array().unwrap().iter().enumerate() {
             let want = want.as_str().unwrap();
             let op = all.iter().find(|o| format!("{:?}", o) == want).unwrap_or_else(|| ctx.machinery(&format!("replay: unknown op {want}")));
